@@ -36,7 +36,7 @@ func init() {
 			"(delegation = a call to another level that no token-consuming call dominates), whose positions are the grammar ranks; R7.2 every constructor application (direct, through an operator-valued variable, or a bound method handed to a helper) " +
 			"builds the node kind the grammar assigns to its guarding token, at the grammar's rank; R7.3 each operand's lowest-ranked source (level function called, or a node built at this level and carried round a loop) equals what the grammar accepts there " +
 			"(associativity); R7.4 duplicate-key tests check the value that is recorded and return an error, function/method call styles are guarded by the registry; R7.6 a literal built below primary rank is one the printer can rank accordingly. " +
-			"Not decided: literal conversion, escapes, whitespace/comments, scope grammar.",
+			"Not decided: literal conversion, escapes, whitespace/comments, scope grammar. R7.12 literal accumulation: every integer multiplication/shift in the tokenizers and the escape reader is proven in range by the interval analysis (bounded digit accumulators recognised), so a hand-rolled number conversion cannot wrap.",
 		Run: runC07,
 	})
 }
